@@ -277,24 +277,59 @@ theorem C08_batch_no_reset {Val Inp : Type} (K : Group → Val)
 
 /-! ## several decoders in one process -/
 
-theorem decoderSys_noGlobalWrite : NoGlobalWrite decoderSys isGlobal := by
-  intro ph op c hg
-  cases c <;> first | (cases hg; done) | (cases ph <;> cases op <;> decide)
+/-- every operation except `initFe` leaves every global alone -/
+theorem decoderSys_noGlobalWrite (op : Op) (h : op ≠ .initFe) : OpNoGlobalWrite decoderSys isGlobal op := by
+  intro ph c hg
+  cases op <;> first | (exact absurd rfl h) | (cases c <;> first | (cases hg; done) | (cases ph <;> decide))
 
 /-- **instances_disjoint.**  Any number of decoder instances alive in one process, sharing the writable
-globals of the library: in every interleaving of their operations that runs to completion, each
-instance goes through exactly what its own operations produce when run alone (same final phase, same
-final content of every one of its cells and of every global) — operations on decoder A commute with
-operations on decoder B.  Rests on the table fact that no modelled operation writes a global cell
-(`decoderSys_noGlobalWrite`); the globals of kind `gexcl` (error callback, log level, dither PRNG) are
-excluded by configuration and `ginit` ones are only touched inside `fe_init`. -/
+globals of the library: in every interleaving of their operations that runs to completion **and
+contains no `initFe`** (decoders are created / re-initialised one at a time, not concurrently with
+other calls — `fe_init` writes the process-wide warp statics of `fe_warp_*.c`), each instance goes
+through exactly what its own operations produce when run alone (same final phase, same final content
+of every one of its cells and of every global) — operations on decoder A commute with operations on
+decoder B.  Rests on the table fact `decoderSys_noGlobalWrite`; the globals of kind `gexcl` (error
+callback, log level, dither PRNG) are excluded by configuration.  What creation itself does to the
+shared statics is the subject of `C08_creation_order_irrelevant`. -/
 theorem C08_instances_disjoint {I Val Inp : Type} [DecidableEq I] (K : Group → Val)
     (sem : Op → Inp → Group → List (Option Val) → Val) (i : I)
-    (l : List (I × Op × Inp)) (ms ms' : MState I Group Phase Val)
+    (l : List (I × Op × Inp)) (hq : ∀ x ∈ l, x.2.1 ≠ .initFe) (ms ms' : MState I Group Phase Val)
     (h : runI decoderSys K sem isGlobal ms l = .ok ms') :
     run decoderSys K sem (ms.phase i, view isGlobal ms i) (opsOf i l) =
       .ok (ms'.phase i, view isGlobal ms' i) :=
-  runI_project decoderSys K sem isGlobal decoderSys_noGlobalWrite i l ms ms' h
+  runI_project decoderSys K sem isGlobal i l ms ms'
+    (fun x hx => decoderSys_noGlobalWrite x.2.1 (hq x hx)) h
+
+/-- the cells a written value may depend on -/
+def depsOf : WriteKind Group → List Group
+  | .const => []
+  | .fn deps => deps
+
+/-- the warp statics are in no read set and in no dependency set: write-only scratch -/
+theorem warp_statics_never_read :
+    ∀ ph ∈ allPhases, ∀ op ∈ allOps, Group.ginit ∉ (spec ph op).reads ∧
+      ∀ e ∈ (spec ph op).writes, Group.ginit ∉ depsOf e.2 := by
+  decide
+
+theorem decoderSys_flowClosed_noInit : FlowClosed decoderSys dataNoInit := by
+  intro ph op ph' ht
+  cases ph <;> cases op <;> first | (cases ht; done) | (intro c; cases c <;> decide)
+
+/-- **creation_order_irrelevant.**  The process-wide frequency-warp statics are the one piece of state
+that creating a decoder shares with every other decoder of the process.  Two configurations in the
+same phase that agree on everything result-relevant **except** those statics — e.g. a fresh process
+versus a process in which other decoders with other `warp_type` / `warp_params` (or none) were created,
+freed or re-initialised before — have the same outcome for every operation list, in particular for
+`initFe :: …` (create the decoder, then use it): same protocol acceptance, same final phase, agreement
+on every result-relevant cell.  A decoder equals its solo fresh-process run whatever was created
+before it.  (Holds for the repaired code, where `fe_warp_*_set_parameters` always parses its argument;
+the pinned tree skipped the parse for a repeated string and kept a stale `is_neutral`, D68.) -/
+theorem C08_creation_order_irrelevant {Val Inp : Type} (K : Group → Val)
+    (sem : Op → Inp → Group → List (Option Val) → Val) (ph : Phase) (s₁ s₂ : State Group Val)
+    (hi₁ : Inv decoderSys ph s₁) (hi₂ : Inv decoderSys ph s₂) (hag : Agree dataNoInit s₁ s₂)
+    (ops : List (Op × Inp)) :
+    SameOutcome dataNoInit (run decoderSys K sem (ph, s₁) ops) (run decoderSys K sem (ph, s₂) ops) :=
+  run_sameOutcome decoderSys decoderSys_wf K sem dataNoInit decoderSys_flowClosed_noInit ops ph s₁ s₂ hi₁ hi₂ hag
 
 /-! ## the Gaussian-selection history of the PTM scorer -/
 
